@@ -28,6 +28,8 @@ def run(ctx):
     ctx.rule("R08.4", "main task: the action worker's end breaks the join loop and all other workers are shut down (JoinSet::shutdown awaited) before Ok(())")
     ctx.rule("R08.5", "Handler::quit records Abort and quit_gracefully(signal, grace) records Graceful{signal, grace} unconditionally; in the CLI an "
                       "Interrupt/Terminate that is not mapped leads to quit(), testing each signal against its own map entry")
+    ctx.rule("R08.7", "the supervisor side of a terminating graceful quit: an expired stop timer is cleared when it is turned into the forced control (so the job "
+                      "task goes on to read its queue and reaches the Delete), and signalling never panics the job task (unsupported signals fall back to SIGTERM)")
     ctx.rule("R08.6", "process-group / session wrappers: session => ProcessSession, else grouped => ProcessGroup::leader(); KillOnDrop always")
 
     # ---- R08.1
@@ -140,6 +142,10 @@ def run(ctx):
         d = ctx.anchor_one("R08.2", "<LateJoinSet as Drop>::drop", facts.trait_methods("watchexec::late_join_set::LateJoinSet", "Drop", "drop"))
         ctx.require(any(tt.callee.is_("LateJoinSet::abort_all") for _, tt in d.calls()), "R08.2", "drop-aborts", "dropping a LateJoinSet aborts its tasks", d.loc(d.line),
                     fail="dropping the job task set no longer aborts the job tasks: after an abort quit job tasks (and their processes) live on")
+        seqd = [strip_generics(e[1]).split("::")[-1] for q in pathx.Enum().paths(thir.root(d)) for e in q.ev if e[0] == "call"]
+        ctx.require("abort_all" in seqd and not any(x in seqd[:seqd.index("abort_all")] for x in ("clear", "drain", "take", "truncate")), "R08.2", "drop-aborts-before-forgetting",
+                    "the handles are aborted before the set forgets them", d.loc(d.line), detail=str(seqd),
+                    fail="LateJoinSet's Drop forgets the task handles before aborting them (%s): dropping a JoinHandle only detaches the task, so after an abort quit the job tasks and their processes live on" % seqd)
         ab = ctx.anchor_fn("R08.2", "watchexec::late_join_set::LateJoinSet::abort_all")
         fe = [tt for _, tt in ab.calls() if tt.callee.is_("core::iter::traits::iterator::Iterator::for_each")]
         ok = len(fe) == 1 and fe[0].args[1].const_fn() is not None and fe[0].args[1].const_fn().is_("JoinHandle::abort", "tokio::runtime::task::join::JoinHandle::abort")
@@ -301,6 +307,15 @@ def run(ctx):
             ctx.require(not bad8 and n_q >= 3 and len(eofc) == 1, "R08.5", "cli-quit-reasons", "the CLI handler quits exactly for: --once (debug), --stdin-quit with a keyboard EOF, "
                         "an unmapped interrupt/terminate", h.loc(h.line), detail="; ".join(bad8)[:400] + " eof-closures=%d" % len(eofc),
                         fail="the CLI action handler's reasons to quit changed: " + "; ".join(bad8)[:300])
+    except Skip:
+        pass
+
+    # ---- R08.7 what the graceful path's termination rests on in the supervisor (rules owned by C06 / C07, evaluated here too)
+    try:
+        from .. import jobtask as _jt8
+        B8 = _jt8.Bodies(ctx, "R08.7")
+        jobrules.recv_gating(ctx, B8, rule="R08.7")
+        jobrules.signal_child_rule(ctx, "R08.7")
     except Skip:
         pass
 
